@@ -36,7 +36,7 @@ pub assume_specification<P: core::str::pattern::Pattern> [str::starts_with] (s: 
 #[verifier::external_body]
 pub fn vx_slice_from<'a>(s: &'a str, a: usize) -> (r: &'a str)
     requires is_boundary(s@, a as int),
-    ensures forall|i: int| 0 <= i <= s@.len() && boff(s@, i) == a ==> r@ == s@.skip(i),
+    ensures forall|i: int| #![trigger boff(s@, i)] 0 <= i <= s@.len() && boff(s@, i) == a ==> r@ == s@.skip(i),
 {
     &s[a..]
 }
@@ -44,7 +44,7 @@ pub fn vx_slice_from<'a>(s: &'a str, a: usize) -> (r: &'a str)
 #[verifier::external_body]
 pub fn vx_slice_to<'a>(s: &'a str, b: usize) -> (r: &'a str)
     requires is_boundary(s@, b as int),
-    ensures forall|i: int| 0 <= i <= s@.len() && boff(s@, i) == b ==> r@ == s@.take(i),
+    ensures forall|i: int| #![trigger boff(s@, i)] 0 <= i <= s@.len() && boff(s@, i) == b ==> r@ == s@.take(i),
 {
     &s[..b]
 }
@@ -52,7 +52,7 @@ pub fn vx_slice_to<'a>(s: &'a str, b: usize) -> (r: &'a str)
 #[verifier::external_body]
 pub fn vx_slice<'a>(s: &'a str, a: usize, b: usize) -> (r: &'a str)
     requires is_boundary(s@, a as int), is_boundary(s@, b as int), a <= b,
-    ensures forall|i: int, j: int| 0 <= i <= j <= s@.len() && boff(s@, i) == a && boff(s@, j) == b ==> r@ == s@.subrange(i, j),
+    ensures forall|i: int, j: int| #![trigger boff(s@, i), boff(s@, j)] 0 <= i <= j <= s@.len() && boff(s@, i) == a && boff(s@, j) == b ==> r@ == s@.subrange(i, j),
 {
     &s[a..b]
 }
@@ -72,3 +72,7 @@ pub broadcast proof fn axiom_str_byte_len(s: &str)
         vstd::string::StringSliceAdditionalSpecFns::spec_bytes(s).len() <= usize::MAX,
 {
 }
+/// ASSUMED (A4): `char::from_u32` -- Some exactly for Unicode scalar values
+pub open spec fn is_scalar(v: int) -> bool { (0 <= v < 0xD800) || (0xE000 <= v <= 0x10FFFF) }
+pub assume_specification [char::from_u32] (i: u32) -> (r: Option<char>)
+    ensures r.is_some() == is_scalar(i as int), r.is_some() ==> r.unwrap() as u32 == i;
